@@ -1,0 +1,40 @@
+//go:build verif
+
+// Package verifhook provides instrumentation points used by the deterministic
+// simulation harness. With the "verif" build tag the calls are forwarded to a
+// handler installed by the harness; with no handler installed they do nothing.
+package verifhook
+
+import "syscall"
+
+// Enabled reports whether the hooks are compiled in.
+const Enabled = true
+
+// Handler receives every At (park == true) and Obs (park == false) call.
+var Handler func(point string, park bool, args []any)
+
+// StatfsHandler may rewrite the result of a statfs(2) call.
+var StatfsHandler func(stat *syscall.Statfs_t)
+
+// At marks a scheduling point: under simulation the calling goroutine may be
+// parked here until the simulator releases it.
+func At(point string, args ...any) {
+	if h := Handler; h != nil {
+		h(point, true, args)
+	}
+}
+
+// Obs records an observation without ever parking the caller (safe to call
+// with a lock held).
+func Obs(point string, args ...any) {
+	if h := Handler; h != nil {
+		h(point, false, args)
+	}
+}
+
+// Statfs lets the simulator override the result of a statfs(2) call.
+func Statfs(stat *syscall.Statfs_t) {
+	if h := StatfsHandler; h != nil {
+		h(stat)
+	}
+}
